@@ -14,7 +14,7 @@ import (
 
 func init() {
 	register(&Rule{ID: "C12.VERDICT", Min: 4, Doc: "a context / special function is reported exactly when the list of the workflow key does not contain it: the lists of the key reach the checker, every defined context is looked up, the list is searched to its end", Run: runC12Verdict})
-	register(&Rule{ID: "C08.RAWKEY", Min: 20, Doc: "the spelling of a case-insensitive name is never the key of a map and never compared with another spelling", Run: runC08RawKey})
+	register(&Rule{ID: "C08.RAWKEY", Min: 12, Doc: "the spelling of a case-insensitive name is never the key of a map and never compared with another spelling", Run: runC08RawKey})
 }
 
 // ---- path helpers (edge granularity) ----
